@@ -56,6 +56,10 @@ FIXED = ['\\x y\\x z',
          '\\begin{verbatim}\\x\\end{verbatim}\\x']
 
 REP_SIZES = (1, 2, 3)
+# several pieces with an empty string in first / middle position (an empty piece is stored as an empty text leaf and
+# must not move its neighbours)
+EMPTY_PIECES = ['s:-,n:' + enc('\\z{1}'), 's:' + enc('P') + ',s:-,s:' + enc('Q'), 's:-,n:' + enc('\\q{2}') + ',s:' + enc('T'),
+                'n:' + enc('\\x') + ',s:-,s:-,n:' + enc('\\x')]
 TRANSPLANT_DOCS = ['\\section{A \\emph{hi} B}\\begin{quote}text \\emph{hi}\\end{quote}',
                    '\\begin{itemize}\\item a \\x b\\item \\x\\end{itemize}$x \\x$ {\\x}\\x',
                    '\\section{Intro}\\begin{quote}text\\end{quote}', '{{g} \\x}{g}\\[\\x\\]',
@@ -88,6 +92,14 @@ def documents(rng, n, corpus_max=0):
     return out
 
 
+STR_RULE = ('New plain strings are words/blanks/the empty string and (30% of them, plus per document some of each kind '
+            'as single replace/insert/append piece) LaTeX source out of lib_edit.SRC_STRS: commands separated from their '
+            'argument group by a blank or a line break, a fixed-signature command with a bare token, unbalanced fragments '
+            '(\\begin{x}, \\[, {, }, \\foo{), a lone backslash, a comment; a string is spliced in verbatim as one text '
+            'leaf (never parsed). Multi-piece replace/insert with an empty string in first / middle position '
+            '(EMPTY_PIECES) at the front and in the middle of a container. ')
+
+
 def transplant_rule(cap):
     return ('Transplant histories (several ops; new material kinds i: = a node taken from inside a separately parsed '
             'snippet, c: = a .copy() of a node of the document itself): on %d hand-written documents, for %s '
@@ -109,7 +121,7 @@ def _mats(rng, size, twin=None):
         elif rng.random() < 0.6:
             out.append('n:' + enc(rng.choice(L.MAT_NODES)))
         else:
-            out.append('s:' + enc(rng.choice(L.MAT_STRS)))
+            out.append('s:' + enc(L.gen_str(rng)))
     return ','.join(out)
 
 
@@ -151,6 +163,28 @@ def single_edits(base, rng, cap=None):
         for size in sizes:
             for variant in (1, 0):
                 out.append(('rep', 'rep %s %s' % (p, _mats(rng, size, alone)), variant, twin))
+    # plain strings that are LaTeX source (spliced verbatim, never parsed) and empty strings among several pieces
+    if targets:
+        srcs = L.SRC_STRS if cap is None else rng.sample(L.SRC_STRS, 4)
+        tp = [rng.choice(targets) for _ in srcs]
+        for st, (path, x) in zip(srcs, tp):
+            for variant in (1, 0):
+                out.append(('rep', 'rep %s s:%s' % (L.show_path(path), enc(st)), variant, True))
+        path, x = rng.choice(targets)
+        for m in EMPTY_PIECES:
+            for variant in (1, 0):
+                out.append(('rep', 'rep %s %s' % (L.show_path(path), m), variant, True))
+    good = [c for c in containers if not L.refuses_contents(c[2])]
+    if good:
+        srcs = L.SRC_STRS if cap is None else rng.sample(L.SRC_STRS, 4)
+        for st in srcs:
+            path, ln, x = rng.choice(good)
+            out.append(('ins', 'ins %s %d s:%s' % (L.show_path(path), rng.randint(0, ln), enc(st)), 0, True))
+            out.append(('app', 'app %s n:%s,s:%s' % (L.show_path(path), enc('\\x'), enc(st)), 0, True))
+        path, ln, x = rng.choice(good)
+        for m in EMPTY_PIECES:
+            out.append(('ins', 'ins %s 0 %s' % (L.show_path(path), m), 0, True))
+            out.append(('ins', 'ins %s %d %s' % (L.show_path(path), ln // 2, m), 0, True))
     ctexts = {}
     for path, ln, x in containers:
         ctexts[str(x)] = ctexts.get(str(x), 0) + 1
@@ -264,7 +298,7 @@ def correspondence(ctx):
               '(insertion into a plain command) must be refused by the model too; non-trivial = the target (container) has '
               'a textual twin elsewhere in the document, or the insertion index is interior. '
               % (len(FIXED), 'every' if cap is None else 'up to %d sampled' % cap,
-                 'every' if cap is None else 'up to %d sampled' % cap)) + transplant_rule(ctx.pick(4, None))
+                 'every' if cap is None else 'up to %d sampled' % cap)) + STR_RULE + transplant_rule(ctx.pick(4, None))
     r.exhaustive = cap is None
     return r
 
@@ -455,7 +489,7 @@ def oracle(ctx, seeds, scale):
               'command other than \\item. Documents: hand-written twin documents, lib_edit.gen_doc, short repository '
               'documents; %s; non-trivial = the target (container) has a textual twin elsewhere, or interior index. '
               % ('every target, every index' if cap is None else 'up to %d sampled targets and containers per document' % cap)
-              ) + transplant_rule(ctx.pick(4, None)) + (
+              ) + STR_RULE + transplant_rule(ctx.pick(4, None)) + (
               ' Each step of such a history is checked in the same way against the text before the step (offsets from the '
               'CURRENT tree), on the freshly parsed document with the very objects that navigation gives (no deep copies).')
     r.exhaustive = cap is None
